@@ -6,6 +6,7 @@ From Coq Require Import NArith List Bool String.
 From BM Require Import Base.Outcome Base.Prims Base.Layout Spec.CastSpec.
 From BM Require Import Proofs.CastValue Proofs.CastPanicking Proofs.CastChecked.
 From BM.Gen Require Internal Root Checked.
+From BM Require Import Base.Own Model.Alloc Proofs.AllocGen.
 Open Scope string_scope.
 Open Scope N_scope.
 
@@ -57,6 +58,17 @@ Proof. exact checked_cast_twin. Qed.
 Theorem C11_checked_pod_read_unaligned : forall ENV T s, ctwin "pod_read_unaligned" (Checked.try_pod_read_unaligned ENV T s) (Checked.pod_read_unaligned ENV T s).
 Proof. exact checked_pod_read_unaligned_twin. Qed.
 
+(* owning-container forms (translated from src/allocation.rs): the panicking form returns exactly the
+   container the fallible form returns, and panics (Result::unwrap, carrying the same error) exactly
+   when the fallible form fails; the fallible form then hands the input back *)
+Theorem C11_owned : forall k ENV A B c, gen_pre k A c ->
+  exists r, gen_try k ENV A B c = Ret r /\
+    match r with
+    | Ok c' => gen_cast k ENV A B c = Ret c'
+    | Err (e, c0) => gen_cast k ENV A B c = Panic (W_unwrap (EP e)) /\ c0 = c
+    end.
+Proof. exact gen_twin. Qed.
+
 Example C11_nonvacuous :
   let E := mkEnv (fun _ => false) (fun _ => 0) in
   Root.cast_ref E (mkTy 4 1) (mkTy 4 4) (mkPtr 4097 4) = Panic (W_msg "cast_ref" (EP TargetAlignmentGreaterAndInputNotAligned)) /\
@@ -79,3 +91,4 @@ Print Assumptions C11_checked_from_bytes.
 Print Assumptions C11_checked_from_bytes_mut.
 Print Assumptions C11_checked_cast.
 Print Assumptions C11_checked_pod_read_unaligned.
+Print Assumptions C11_owned.
